@@ -198,3 +198,17 @@ PROPS['C14'] = dict(
     assumptions=['time stamps are taken before the call and after the return; all timing rules are necessary conditions only (R2, R3)',
                  'the clean-up goroutine runs within slack = max(window, 50 ms) of its tick'],
 )
+
+PROPS['C18'] = dict(
+    level='model_checking',
+    design=[D('RequestReply', 'MCRequestReply_drain.cfg', coverage=True), D('RequestReply', 'MCRequestReply_noread.cfg'), D('RequestReply', 'MCRequestReply_readone.cfg'),
+            D('RequestReply', 'MCRequestReply_mut_blocking.cfg', expect='fail', violates='temporal')],
+    traces={'RequestReplyTrace': dict(module='RequestReplyTrace', cfg='RequestReplyTrace.cfg')},
+    rule='runs = real PubSubBackend + CommandBus + CommandProcessor over one GoChannel with a reply topic shared by all requests: single callers for every caller behaviour '
+         '{drain, read one then cancel late, never read, cancel before the reply, SendWithReply} x handler failing 0/1/2 deliveries x AckCommandErrors on/off, listener time-outs, '
+         '2/8/32 concurrent callers with mixed behaviours, random mixes; non-trivial = every run',
+    exhaustive=False,
+    min_stats={'cases': 40},
+    assumptions=['replies are attributed through a caller id carried in the command, the handler result and the notification metadata',
+                 'a listener goroutine still alive 1 s after quiescence is a leak (pprof labels)'],
+)
